@@ -272,6 +272,7 @@ impl Storage {
     pub fn update_filter_scripts(&self, scripts: Vec<ScriptStatus>, command: SetScriptsCommand) {
         let mut should_filter_genesis_block = false;
         let mut min_block_number = None;
+        let keep_scripts = !matches!(command, SetScriptsCommand::All);
         let mut batch = self.batch();
         let key_prefix = Key::Meta(FILTER_SCRIPTS_KEY).into_vec();
 
@@ -357,6 +358,20 @@ impl Storage {
         }
 
         batch.commit().expect("batch commit should be ok");
+
+        // The pending matched blocks will be discarded, so when some scripts are kept, the block
+        // filters have to be synced again from the earliest of them, otherwise the blocks which
+        // were matched for the kept scripts would be skipped.
+        if keep_scripts {
+            if let Some((start_number, _, _)) = self.get_earliest_matched_blocks() {
+                let rewind_number = start_number.saturating_sub(1);
+                let current_number =
+                    min_block_number.unwrap_or_else(|| self.get_min_filtered_block_number());
+                if rewind_number < current_number {
+                    min_block_number = Some(rewind_number);
+                }
+            }
+        }
 
         if let Some(min_number) = min_block_number {
             self.update_min_filtered_block_number(min_number);
